@@ -604,6 +604,11 @@ func c14Concurrent(ctx *Ctx, be *fb.Backend, env *px.Env, evs *c14Events, nextID
 			if len(rs.got) > 0 && rs.got[0]%100000 < reg && rs.got[0] >= first {
 				reg = rs.got[0] % 100000
 			}
+			// the event numbered readyAt may have been on its way through the proxy while the client registered (the counter is
+			// advanced after the backend has written it): it may or may not be among the client's frames
+			if len(rs.got) > 0 && rs.got[0]%100000 == reg+1 {
+				reg++
+			}
 			var ops []hv.V
 			for id := first; id < reg; id++ {
 				ops = append(ops, hv.L(hv.I(3), hv.I(0), hv.I(int64(id))))
